@@ -29,9 +29,15 @@ ExprClauses(r) ==
                    IF \/ r.printed_err \/ r.printed_tt # r.tt \/ ~q1.ok \/ TT(q1.tree) # r.tt
                       \/ r.pretty_err \/ r.pretty_tt # r.tt \/ ~q2.ok \/ TT(q2.tree) # r.tt
                    THEN {"C07.roundtrip"} ELSE {})
-\* kind "ph": pre, post, c (chars): command-line text = pre {config.tags} post, config-file tags = c
+\* kind "ph": pre, post, c (chars): command-line text = pre {config.tags} post, config-file tags = c; pre and post may hold
+\* further placeholders: EVERY occurrence stands for the configured expression
+PH == <<"{", "c", "o", "n", "f", "i", "g", ".", "t", "a", "g", "s", "}">>
+RECURSIVE Subst(_,_)
+Subst(t, rep) == IF Len(t) < Len(PH) THEN t
+                 ELSE IF SubSeq(t, 1, Len(PH)) = PH THEN rep \o Subst(SubSeq(t, Len(PH) + 1, Len(t)), rep)
+                 ELSE <<t[1]>> \o Subst(Tail(t), rep)
 PhClauses(r) ==
-   LET want == ParseText(r.pre \o <<"(">> \o r.c \o <<")">> \o r.post) IN
+   LET want == ParseText(Subst(r.pre \o PH \o r.post, <<"(">> \o r.c \o <<")">>)) IN
    IF ~want.ok \/ ~ParseText(r.c).ok THEN {}
    ELSE IF r.err \/ r.tt # TT(want.tree) THEN {"C07.placeholder"} ELSE {}
 \* kind "wip": --wip --tags=<text>: the configured expression is (text) AND wip: with the tag wip present it has the truth table
